@@ -98,6 +98,22 @@ def transcribe_set_decimal_config(tree, ints, strs):
             continue
         if isinstance(st, ast.Expr) and isinstance(st.value, ast.Call) and ast.unparse(st.value.func).startswith('_verif.'):
             continue  # guarded verification hook, no effect
+        if isinstance(st, ast.Assign) and len(st.targets) == 1 and isinstance(st.targets[0], ast.Tuple) and isinstance(st.value, ast.Tuple) \
+                and len(st.targets[0].elts) == len(st.value.elts) and all(isinstance(t, ast.Name) for t in st.targets[0].elts):
+            # simultaneous assignment  A, B = x, y : right-hand sides are evaluated first
+            tmps = []
+            for k, v in enumerate(st.value.elts):
+                lines.append('let t_%d_%d : Int := %s' % (st.lineno, k, tr.expr(v)))
+                tmps.append('t_%d_%d' % (st.lineno, k))
+            for t, tmp in zip(st.targets[0].elts, tmps):
+                if t.id in GLOBALS:
+                    lines.append('let g : St := { g with %s := %s }' % (FIELD[t.id], tmp))
+                else:
+                    if t.id in ints or t.id in strs: raise SE('assignment to a constant: ' + ast.unparse(st))
+                    lines.append('let l_%s : Int := %s' % (t.id, tmp))
+                    tr.locals.add(t.id)
+            summary.append(ast.unparse(st))
+            continue
         if isinstance(st, ast.Assign) and len(st.targets) == 1 and isinstance(st.targets[0], ast.Name):
             tgt = st.targets[0].id
             v = st.value
